@@ -1,6 +1,367 @@
-"""Slitherlink: a single loop on the lattice (or no line at all); each clue = number of loop segments around its cell."""
+"""Slitherlink: a single loop on the lattice (or no line at all); each clue = number of loop segments around its cell.
+
+Large family (shape descriptors ("large", h, w)): boards beyond the reach of base.loops() are enumerated by enum_loops(), an
+exact vertex-by-vertex frontier search over the lattice (written from the definition "every vertex has degree 0 or 2 and the
+used edges form at most one cycle"), pruned by the clues as soon as all edges of a clue are decided.  The enumerator and the
+instance-derivation helpers below are shared by the other loop oracles (masyu, simpleloop, geradeweg, castle_wall).
+"""
 
 from . import base
+
+
+# ---- exact loop enumeration for boards beyond base.loops() ---------------------------------------------------------
+def edge_ids(h, w):
+    """(H, V, m): H(y, x) = key index of the edge (y,x)-(y,x+1), V(y, x) = key index of (y,x)-(y+1,x), m = number of edges
+    of the h x w vertex grid, in BoolGridFrame(h-1, w-1) key order (the order of base.edge_index)."""
+    nh = h * (w - 1)
+
+    def H(y, x):
+        return y * (w - 1) + x
+
+    def V(y, x):
+        return nh + y * w + x
+
+    return H, V, nh + (h - 1) * w
+
+
+class _Stop(Exception):
+    pass
+
+
+def enum_loops(h, w, checks=(), watches=(), stop=None, cap=None, variant=0, final=None):
+    """All edge sets of the h x w vertex grid graph that are empty or exactly one simple cycle (tuples of bools in base.loops
+    key order) and pass the filters.
+
+    Search: the vertices are visited along the short side (row-major, or column-major when w > h); at a vertex the edges to
+    the already visited neighbours (up, left) are known and the edges to the right and down are chosen so that the vertex
+    gets degree 0 or 2.  mate[v] is v for an untouched vertex, the other end of its path for a path end, -1 for an inner
+    vertex; an edge that joins the two ends of one path closes a cycle, which is allowed only when no other path is open,
+    and afterwards no further edge may be used.  Complete by construction: every branch that is cut violates the degree
+    rule, creates a second cycle / a cycle beside an open path, or fails a filter.
+
+    checks:  (edges, fn) - fn(E) is called once, at the moment all of `edges` are decided (E[k] is True/False for decided
+             edges, None otherwise) and must return False to cut;
+    watches: (edges, fn) - fn(E) is called every time one of `edges` gets decided (partial checks that tolerate None);
+    final:   fn(loop) on complete loops;
+    stop:    stop silently after that many loops (used only to pick seed loops);
+    cap:     raise RuntimeError beyond that many loops (keeps an oracle call from running away);
+    variant: 0 = canonical order of the choices; k > 0 = a fixed pseudo-random order (seed loops of large boards)."""
+    nh = h * (w - 1)
+    m = nh + (h - 1) * w
+    n = h * w
+    if w > h:
+        order = [(y, x) for x in range(w) for y in range(h)]
+    else:
+        order = [(y, x) for y in range(h) for x in range(w)]
+    pos = {}
+    for i, (y, x) in enumerate(order):
+        if x < w - 1:
+            pos[y * (w - 1) + x] = i
+        if y < h - 1:
+            pos[nh + y * w + x] = i
+    sched = [[] for _ in range(n)]
+    for edges, fn in checks:
+        sched[max([pos[e] for e in edges] or [0])].append(fn)
+    for edges, fn in watches:
+        for i in sorted(set(pos[e] for e in edges)):
+            sched[i].append(fn)
+    flip = [False] * n
+    if variant:
+        z = variant * 2654435761 % 4294967296
+        for s in range(n):
+            z = (z * 1103515245 + 12345) % 2147483648
+            flip[s] = bool((z >> 16) & 1)
+    E = [None] * m
+    mate = list(range(n))
+    out = []
+    O2 = ((False, False),)
+    O1 = (((True, False), (False, True)), ((False, True), (True, False)))
+    O0 = (((False, False), (True, True)), ((True, True), (False, False)))
+
+    def link(u, v, nopen):
+        a = mate[u]
+        b = mate[v]
+        if a == v:  # u and v are the two ends of one path: the edge closes a cycle
+            if nopen != 1:
+                return None
+            mate[u] = -1
+            mate[v] = -1
+            return 0, True, ((u, a), (v, b))
+        undo = ((u, a), (v, b), (a, mate[a]), (b, mate[b]))
+        mate[a] = b
+        mate[b] = a
+        if a != u:
+            mate[u] = -1
+        if b != v:
+            mate[v] = -1
+        return nopen + (a == u) + (b == v) - 1, False, undo
+
+    def rec(i, nopen, closed):
+        if i == n:
+            if closed or nopen == 0:
+                t = tuple(E)
+                if final is None or final(t):
+                    out.append(t)
+                    if stop is not None and len(out) >= stop:
+                        raise _Stop()
+                    if cap is not None and len(out) > cap:
+                        raise RuntimeError("enum_loops: more than %d loops on %d x %d" % (cap, h, w))
+            return
+        y, x = order[i]
+        s = y * w + x
+        din = (1 if (y > 0 and E[nh + (y - 1) * w + x]) else 0) + (1 if (x > 0 and E[y * (w - 1) + x - 1]) else 0)
+        if closed or din == 2:
+            opts = O2
+        elif din == 1:
+            opts = O1[flip[i]]
+        else:
+            opts = O0[flip[i]]
+        cs = sched[i]
+        for r, d in opts:
+            if (r and x == w - 1) or (d and y == h - 1):
+                continue
+            n2 = nopen
+            c2 = closed
+            undo = []
+            ok = True
+            if r:
+                res = link(s, s + 1, n2)
+                if res is None:
+                    ok = False
+                else:
+                    n2, c2, u = res
+                    undo.append(u)
+            if ok and d:
+                res = None if c2 else link(s, s + w, n2)
+                if res is None:
+                    ok = False
+                else:
+                    n2, c2, u = res
+                    undo.append(u)
+            if ok:
+                if x < w - 1:
+                    E[y * (w - 1) + x] = r
+                if y < h - 1:
+                    E[nh + y * w + x] = d
+                for f in cs:
+                    if not f(E):
+                        break
+                else:
+                    rec(i + 1, n2, c2)
+                if x < w - 1:
+                    E[y * (w - 1) + x] = None
+                if y < h - 1:
+                    E[nh + y * w + x] = None
+            for u in reversed(undo):
+                for k, val in reversed(u):
+                    mate[k] = val
+
+    try:
+        rec(0, 0, False)
+    except _Stop:
+        pass
+    return out
+
+
+def vertex_edges(h, w):
+    """Per vertex id y*w+x the key indices (up, down, left, right) of its edges, None where the board ends."""
+    H, V, m = edge_ids(h, w)
+    return [
+        (V(y - 1, x) if y > 0 else None, V(y, x) if y < h - 1 else None, H(y, x - 1) if x > 0 else None, H(y, x) if x < w - 1 else None)
+        for y in range(h)
+        for x in range(w)
+    ]
+
+
+def dirs_of(E, ve):
+    """Directions ('U','D','L','R') of the edges of a vertex that are decided and used; ve = vertex_edges(h, w)[y*w+x]."""
+    return "".join(d for d, e in zip("UDLR", ve) if e is not None and E[e])
+
+
+# ---- seed loops and dense instance families -------------------------------------------------------------------------
+ENUMERABLE = 100000  # clue-free boards are enumerated completely only when they have fewer loops than this
+_SEEDS = {}
+
+
+def loop_count(h, w):
+    """Number of loops (incl. the empty one) of the h x w vertex grid when the board is small enough to enumerate completely
+    (sides 1-2 x any, 3 x <= 12, 4 x <= 7, 5 x <= 6: at most 80627 loops), else None."""
+    a, b = min(h, w), max(h, w)
+    if not (a <= 2 or (a == 3 and b <= 12) or (a == 4 and b <= 7) or (a == 5 and b <= 6)):
+        return None
+    return len(all_loops(h, w))
+
+
+_ALL = {}
+
+
+def all_loops(h, w):
+    if (h, w) not in _ALL:
+        _ALL[(h, w)] = enum_loops(h, w, cap=ENUMERABLE)
+    return _ALL[(h, w)]
+
+
+def seed_loops(h, w, nseeds, longest=False, min_edges=None, final=None):
+    """Deterministic choice of loops of the clue-free board: the first loop found under the choice orders variant = 1, 2, ...
+    (nseeds distinct ones, each with at least min_edges segments and accepted by `final`), and on request - when the board
+    is small enough to enumerate completely - also the (first) longest loop of the complete enumeration."""
+    if min_edges is None:
+        min_edges = h + w
+    key = (h, w, nseeds, longest, min_edges) if final is None else None
+    if key is not None and key in _SEEDS:
+        return _SEEDS[key]
+    fin = lambda t: sum(t) >= min_edges and (final is None or final(t))
+    out = []
+    v = 1
+    while len(out) < nseeds and v <= 4 * nseeds + 4:
+        got = enum_loops(h, w, stop=1, variant=v, final=fin)
+        if got and got[0] not in out:
+            out.append(got[0])
+        v += 1
+    if longest and loop_count(h, w) is not None:
+        cands = [t for t in all_loops(h, w) if any(t) and (final is None or final(t))]
+        if cands:
+            t = max(cands, key=lambda t: sum(t))
+            if t not in out:
+                out.append(t)
+    if key is not None:
+        _SEEDS[key] = out
+    return out
+
+
+def dense_family(full, h, w, bump, thorough):
+    """Clue sets derived from the complete clue set `full` ({(y, x): value}) of one solution: the full set; the full set minus
+    every k-th clue (k = 2, 3; thorough also 4, 5); the full set with ONE clue changed by bump(value, +1 / -1, cell) at the
+    last and first clue, a corner clue (far corner first), the middle clue and the clues nearest to the middle of the last
+    row / last column (quick: the first three positions, one direction each, alternating +1 / -1; thorough: all positions,
+    the first three in both directions).  bump returns the changed value or None when there is none."""
+    keys = sorted(full)
+    out = [dict(full)]
+    for k in (2, 3, 4, 5) if thorough else (2, 3):
+        if len(keys) >= k:
+            out.append({c: full[c] for i, c in enumerate(keys) if i % k != k - 1})
+    if keys:
+        chosen = []
+
+        def choose(cands):
+            for c in cands:
+                if c in full and c not in chosen:
+                    chosen.append(c)
+                    return
+
+        choose([keys[-1]])
+        choose([keys[0]])
+        choose([(h - 1, w - 1), (0, w - 1), (h - 1, 0), (0, 0)])
+        choose([keys[len(keys) // 2]])
+        choose(sorted([c for c in keys if c[0] == h - 1], key=lambda c: (abs(2 * c[1] - (w - 1)), c)))
+        choose(sorted([c for c in keys if c[1] == w - 1], key=lambda c: (abs(2 * c[0] - (h - 1)), c)))
+        for i, c in enumerate(chosen if thorough else chosen[:3]):
+            made = 0
+            for dl in (1, -1) if i % 2 == 0 else (-1, 1):
+                nv = bump(full[c], dl, c)
+                if nv is None or nv == full[c]:
+                    continue
+                d = dict(full)
+                d[c] = nv
+                out.append(d)
+                made += 1
+                if made and not (thorough and i < 3):
+                    break
+    return out
+
+
+def uniq(problems):
+    """Drop repeated problems, keeping the order."""
+    import json
+
+    seen = set()
+    out = []
+    for p in problems:
+        k = json.dumps(p, sort_keys=True)
+        if k not in seen:
+            seen.add(k)
+            out.append(p)
+    return out
+
+
+_LARGE = {}
+
+OLD_PATH_MAX_VERTICES = 20  # boards of the small ladder keep the original oracle (base.loops + filter)
+SOLUTION_CAP = 400000
+
+
+def _checks(h, w, prob):
+    """Filters for enum_loops on the (h+1) x (w+1) lattice: per clue the exact count once its four sides are decided, and
+    a partial count (not above the clue, still reachable) whenever one of them gets decided."""
+    H, V, m = edge_ids(h + 1, w + 1)
+    checks = []
+    watches = []
+    for y in range(h):
+        for x in range(w):
+            c = prob[y][x]
+            if c >= 0:
+                sides = (H(y, x), H(y + 1, x), V(y, x), V(y, x + 1))
+
+                def exact(E, sides=sides, c=c):
+                    return E[sides[0]] + E[sides[1]] + E[sides[2]] + E[sides[3]] == c
+
+                def partial(E, sides=sides, c=c):
+                    used = free = 0
+                    for e in sides:
+                        if E[e] is None:
+                            free += 1
+                        elif E[e]:
+                            used += 1
+                    return used <= c <= used + free
+
+                checks.append((sides, exact))
+                watches.append((sides, partial))
+    return checks, watches
+
+
+def clues_of(h, w, loop):
+    """Complete clue set of a loop on the (h+1) x (w+1) lattice: the number of used sides of every cell."""
+    H, V, m = edge_ids(h + 1, w + 1)
+    return {(y, x): loop[H(y, x)] + loop[H(y + 1, x)] + loop[V(y, x)] + loop[V(y, x + 1)] for y in range(h) for x in range(w)}
+
+
+def _large_instances(h, w, thorough):
+    key = (h, w, thorough)
+    if key in _LARGE:
+        return _LARGE[key]
+
+    def prob(clues):
+        return {"height": h, "width": w, "problem": [[clues.get((y, x), -1) for x in range(w)] for y in range(h)]}
+
+    out = []
+    enumerable = loop_count(h + 1, w + 1) is not None
+    if enumerable:
+        # the clue-free board and light instances with clues on the far corner / last row / last column only
+        far = (h - 1, w - 1)
+        light = [{}, {far: 3}, {(h - 1, x): 1 for x in range(w)}, {(y, w - 1): 2 for y in range(h)}]
+        if thorough or h == w:
+            light += [{far: 2}, {far: 1, (0, 0): 3}, {(h - 1, 0): 3, (0, w - 1): 3}, {(h - 1, w // 2): 3, (h // 2, w - 1): 3}]
+        if thorough:
+            light += [{(h - 1, x): 2 for x in range(w)}, {(y, w - 1): 1 for y in range(h)}]
+        for clues in light if (thorough or h == w) else light[:2]:
+            out.append(prob(clues))
+
+    def bump(v, dl, c):
+        return v + dl if 0 <= v + dl <= 4 else None
+
+    if thorough:
+        seeds = seed_loops(h + 1, w + 1, 1 if enumerable else 2, longest=True)
+    else:
+        seeds = seed_loops(h + 1, w + 1, 1)
+    for g in seeds:
+        fam = dense_family(clues_of(h, w, g), h, w, bump, thorough)
+        if not thorough and h != w:
+            fam = fam[:2] + fam[3:5]  # non-square boards in the quick tier: full, minus every 2nd, two changed clues
+        for clues in fam:
+            out.append(prob(clues))
+    out = uniq(out)
+    _LARGE[key] = out
+    return out
 
 
 class Slitherlink(base.Rule):
@@ -8,9 +369,18 @@ class Slitherlink(base.Rule):
 
     def shapes(self, tier):
         s = [(1, 1), (1, 2), (2, 1), (2, 2), (1, 3), (3, 1), (2, 3), (3, 2)]
-        return s + ([(3, 3)] if tier == "quick" else [(3, 3), (1, 4), (4, 1), (2, 4), (4, 2), (3, 4), (4, 3)])
+        s = s + ([(3, 3)] if tier == "quick" else [(3, 3), (1, 4), (4, 1), (2, 4), (4, 2), (3, 4), (4, 3)])
+        # large family: dense clue sets derived from solutions, clue-free and last-row/column instances
+        large = [(4, 4), (6, 6), (8, 8), (3, 6), (6, 3), (2, 10), (10, 2), (1, 12), (12, 1)]
+        if tier != "quick":
+            large += [(4, 5), (5, 4), (5, 5), (7, 7), (10, 10), (5, 8), (8, 5), (4, 9), (9, 4), (3, 12), (12, 3), (2, 11), (11, 2), (1, 15), (15, 1)]
+        return s + [("large", h, w) for h, w in large]
 
     def instances(self, shape, cap):
+        if shape[0] == "large":
+            for p in _large_instances(shape[1], shape[2], cap > 1000):
+                yield p
+            return
         h, w = shape
         lays, k = base.layouts(h * w, -1, [0, 1, 2, 3, 4], cap)
         for cells in lays:
@@ -23,6 +393,19 @@ class Slitherlink(base.Rule):
         return is_sat, base.sols_of(frame)
 
     def readings(self, p):
+        h, w = p["height"], p["width"]
+        if (h + 1) * (w + 1) > OLD_PATH_MAX_VERTICES:
+            return [self.readings_large(p)]
+        return [self.readings_small(p)]
+
+    def readings_large(self, p):
+        h, w = p["height"], p["width"]
+        checks, watches = _checks(h, w, p["problem"])
+        if not checks and loop_count(h + 1, w + 1) is not None:
+            return list(all_loops(h + 1, w + 1))
+        return enum_loops(h + 1, w + 1, checks, watches, cap=SOLUTION_CAP)
+
+    def readings_small(self, p):
         h, w = p["height"], p["width"]
         # lattice of (h+1) x (w+1) points; key order = BoolGridFrame(h, w): horizontal (h+1) x w, vertical h x (w+1)
         idx, m = base.edge_index(h + 1, w + 1)
@@ -46,10 +429,47 @@ class Slitherlink(base.Rule):
                     break
             if ok:
                 out.append(loop)
-        return [out]
+        return out
 
     def example(self):
         return {"height": 4, "width": 4, "problem": [[3, -1, -1, -1], [3, -1, -1, -1], [-1, 2, 2, -1], [-1, 2, -1, 1]]}, "tests/test_serializer.py slither/4/4/dgdh2c71"
 
 
 RULE = Slitherlink()
+
+
+def selftest():
+    """The frontier enumerator against base.loops() on every small board, and the pruned large-board oracle against the
+    original filter oracle on the small ladder (all layouts with <= 2 clues, plus dense clue sets of every loop of 3 x 3)."""
+    H, V, m = edge_ids(3, 4)
+    idx, m2 = base.edge_index(3, 4)
+    assert m == m2 and all(idx[frozenset([(y, x), (y, x + 1)])] == H(y, x) for y in range(3) for x in range(3))
+    assert all(idx[frozenset([(y, x), (y + 1, x)])] == V(y, x) for y in range(2) for x in range(4))
+    for h in range(1, 6):
+        for w in range(1, 6):
+            if h * w <= 20:
+                a = base.loops(h, w)
+                for variant in (0, 1, 2):
+                    b = enum_loops(h, w, variant=variant)
+                    assert len(b) == len(set(b)) == len(a) and set(b) == set(a), (h, w, variant)
+    assert len(enum_loops(5, 5)) == 9350 and len(enum_loops(2, 13)) == 1 + 13 * 12 // 2  # 2 x n: the rectangles
+    assert len(enum_loops(6, 5)) == len(enum_loops(5, 6)) == 80627
+    r = RULE
+    n = 0
+    for h, w in [(1, 1), (1, 3), (2, 2), (2, 3), (3, 2), (3, 3), (1, 4), (4, 2), (3, 4), (4, 3)]:
+        lays, k = base.layouts(h * w, -1, [0, 1, 2, 3, 4], 2500)
+        for cells in lays:
+            p = {"height": h, "width": w, "problem": base.grid(cells, h, w)}
+            assert sorted(r.readings_small(p)) == sorted(r.readings_large(p)), p
+            n += 1
+    for h, w in [(3, 3), (2, 4), (3, 4)]:
+        for g in base.loops(h + 1, w + 1):
+            for clues in dense_family(clues_of(h, w, g), h, w, lambda v, dl, c: v + dl if 0 <= v + dl <= 4 else None, True):
+                p = {"height": h, "width": w, "problem": [[clues.get((y, x), -1) for x in range(w)] for y in range(h)]}
+                a = r.readings_small(p)
+                assert sorted(a) == sorted(r.readings_large(p)), p
+                if len(clues) == h * w and clues == clues_of(h, w, g):
+                    assert g in a
+                n += 1
+    return n
+
